@@ -203,7 +203,8 @@ def validate(ctx, trace_path, o, blocks):
     d = dict(BLOCKS=",".join(map(str, blocks)), MAXCACHE=o["maxcache"], MAXDAT=o["maxdat"], KEEP=o["keep"],
              CMPPOS="FALSE" if o["compress"] else "TRUE")
     r = ctx.tlc("TraceBlockStore", "BlockStore_trace", workers=1, defines=d, timeout=1500,
-                files={"trace.ndjson": trace_path, "opts.json": json.dumps(o)})
+                files={"trace.ndjson": trace_path,
+                       "TraceOpts.tla": "---- MODULE TraceOpts ----\nBLenSeq == <<%s>>\n====\n" % ", ".join(str(x) for x in o["blenseq"])})
     hw = None
     for line in open(r.outpath, errors="replace"):
         if "VFREJECT" in line:
